@@ -2,9 +2,11 @@ import Driver.Util
 import Driver.C08
 import Driver.C09
 import Driver.C10
+import Driver.Scheme
+import Driver.C01
 open Drv
 
-def handlers : List (String → Handler) := [Drv.C08.handle, Drv.C09.handle, Drv.C10.handle]
+def handlers : List (String → Handler) := [Drv.C08.handle, Drv.C09.handle, Drv.C10.handle, Drv.Sch.handle, Drv.C01.handle]
 
 def answer (line : String) : String :=
   let (lhs, impl) := match line.trimAscii.toString.splitOn " => " with
